@@ -9,7 +9,29 @@ import sys
 from vf import runner
 
 
+def normalise_signals() -> None:
+    """A check started as a background job of a non-interactive shell (`./check ... &`), under nohup or from a supervisor inherits
+    SIGINT/SIGQUIT as *ignored*, and an ignored signal stays ignored across exec: the processes the checks start would never see the
+    Ctrl-C that C15 sends them.  The harness therefore runs with the default dispositions, whatever it was started with (every
+    process started from here inherits them)."""
+    import signal
+
+    sigs = ((signal.SIGINT, signal.default_int_handler), (signal.SIGQUIT, signal.SIG_DFL), (signal.SIGTERM, signal.SIG_DFL),
+            (signal.SIGALRM, signal.SIG_DFL), (signal.SIGVTALRM, signal.SIG_DFL))
+    for sig, handler in sigs:
+        try:
+            if signal.getsignal(sig) is signal.SIG_IGN:
+                signal.signal(sig, handler)
+        except (OSError, ValueError):
+            pass
+    try:  # a blocked signal stays blocked across exec as well
+        signal.pthread_sigmask(signal.SIG_UNBLOCK, {sig for sig, _ in sigs} | {signal.SIGCHLD})
+    except (OSError, ValueError, AttributeError):
+        pass
+
+
 def main() -> int:
+    normalise_signals()
     ap = argparse.ArgumentParser()
     ap.add_argument("prop")
     ap.add_argument("--tier", default=os.environ.get("VERIF_TIER", "quick"), choices=["quick", "thorough"])
